@@ -364,6 +364,14 @@ func runC15(res *lib.Result, tier string, seed int64, args []string) error {
 						starts = starts || (t == c.name && declIn[a.file])
 					}
 				}
+				// … or of a wrapper alias (table<K, V> / T[]) whose value type names it: the lookup of the element type
+				// starts in the file that declares the alias
+				for i, l := range w.wrapAl {
+					f := []string{"a.lua", "b.lua", "main.lua"}[i%3]
+					for _, word := range strings.FieldsFunc(l, func(c rune) bool { return !(c == '_' || c >= '0' && c <= '9' || c >= 'A' && c <= 'Z' || c >= 'a' && c <= 'z') }) {
+						starts = starts || (word == c.name && declIn[f])
+					}
+				}
 				if !starts {
 					continue
 				}
